@@ -790,3 +790,65 @@ def r12(R):
                         ast.unparse(c.args[0]))
     R.require(n >= 1, '_commit_savepoint no longer distinguishes blob '
               'records')
+
+
+# ------------------------------------------------------------------ C13.R13
+@rule('C13.R13', 'the blob sweep of the wrapper removes a file of an '
+      'EXISTING object only after the wrapped storage said that this '
+      'revision is gone (it asks per file)', props=['C07', 'C15'],
+      min_instances=2)
+def r13(R):
+    cls = R.prog.cls(BLOBSTORAGE)
+    n = 0
+    for meth in ('_packUndoing', '_packNonUndoing'):
+        f = R.method(cls, meth)
+        g, b, F = R.cfg(f, cls, max_depth=0)
+        n += 1
+        R.instance('BlobStorage.%s' % meth)
+
+        def edge(node, st, lab, tgt, F=F):
+            exists, asked = st
+            if node.kind == 'for' and lab == 'T':
+                stmt = node.info.get('stmt') if node.info else None
+                outer = stmt is not None and any(
+                    isinstance(c, ast.Call) and dotted(c.func) and
+                    dotted(c.func)[-1] == 'listOIDs'
+                    for c in ast.walk(stmt.iter))
+                # a new object: nothing known; a new file: nothing asked
+                return ('unknown', False) if outer else (exists, False)
+            for op in F.ops(node):
+                if op.kind == 'call' and op.path and op.path[-1] in (
+                        'loadSerial',):
+                    asked = lab in ('e', 'eb')     # POSKeyError: gone
+                if op.kind == 'call' and op.path and op.path[-1].split(
+                        '.')[-1] in ('load_current', 'load'):
+                    exists = 'no' if lab in ('e', 'eb') else 'yes'
+            if node.kind == 'test' and lab in ('T', 'F'):
+                for e, truth in implied_atoms(node.ast, lab):
+                    if isinstance(e, ast.Name) and e.id == 'exists':
+                        exists = 'yes' if truth else 'no'
+            return (exists, asked)
+
+        def at(node, st, F=F, meth=meth):
+            exists, asked = st
+            for op in F.ops(node):
+                if op.kind == 'call' and op.path and op.path[-1].split(
+                        '.')[-1] == 'remove_committed':
+                    if exists != 'no' and not asked:
+                        return Violation(
+                            'BlobStorage.%s removes a blob file of an object '
+                            'that exists without having asked the wrapped '
+                            'storage whether THIS revision is gone (it keeps '
+                            'the newest file and removes the rest): a '
+                            'storage without undo still keeps every revision '
+                            'from the one current at the pack time on, so '
+                            'snapshots not older than the pack lose their '
+                            'blob bytes' % meth)
+            return st
+
+        vs, stats = explore(g, ('unknown', False), at=at, edge=edge)
+        R.count(stats)
+        for v in vs:
+            R.violation(v.node, v.message, g, v.path,
+                        key='file removed without asking for its revision')
+    R.require(n >= 2, 'sweeps not found')
